@@ -287,3 +287,45 @@ MUTANTS = [
     dict(name="variable bins compatibility not checked", file="_reduce.py", old="                if (len(bins2) != len(bins)) or not np.all(bins2 == bins):", new="                if False:", checks=["compat"]),
     dict(name="revert F12 fix (overflow check)", file="create/_create.py", old="                        if data.min() < info.min or data.max() > info.max:", new="                        if False:", checks=["overflow"]),
 ]
+
+
+# ---------------------------------------------------------------------------
+# scale case: hundreds of inputs (more than any plausible internal fan-in limit), a non-decomposable aggregate
+# ---------------------------------------------------------------------------
+def many_inputs_body(env, p):
+    """k inputs over two bins, each holding the pixel (0,1) (every 7th one also (1,1)); the extra column w is aggregated with `mean`,
+    which cannot be computed batch-wise. w of the first and the last input is symbolic, the others are fixed: the merged value is the mean
+    over *all* inputs. A scale case (one path per solver choice), reported as such."""
+    from .common import vals
+    env.reset()
+    k = p["k"]
+    bins = concrete_bins([2], "even")
+    a, z = env.int("w_first", 1, 9), env.int("w_last", 1, 9)
+    uris, ws, extra = [], [], 0
+    for i in range(k):
+        w = a if i == 0 else z if i == k - 1 else 1 + (i * 3) % 7
+        ws.append(w)
+        two = (i % 7 == 3)
+        extra += 1 if two else 0
+        uris.append(env.build_cooler(scratch_file(f"c07m_{i}.cool"), bins, [0, 1] if two else [0], [1, 1] if two else [1], {"count": [1, 1] if two else [1], "w": [w, 2] if two else [w]},
+                                     True, dtypes={"w": "float64"}))
+    out = scratch_file("c07m_out.cool")
+    env.cooler.merge_coolers(out, uris, mergebuf=p["mergebuf"], columns=["count", "w"], agg={"w": "mean"})
+    tab = env.cooler.Cooler(out).pixels()[:]
+    env.check(len(tab) == 2, f"merged table has {len(tab)} pixels, expected 2")
+    cnt, wv = vals(tab["count"]), vals(tab["w"])
+    total = ssum(ws) if env.symbolic else sum(ws)
+    env.check(and_(cnt[0] == k, cnt[1] == extra), "merged counts are not the sums over all inputs")
+    d = wv[0] * k - total
+    env.check(and_(d < 1e-6, d > -1e-6), f"merged mean of w over {k} inputs is not the mean of all input values")
+    return [int(cnt[0]) if not env.symbolic else cnt[0]]
+
+
+many_sym, many_real = both(many_inputs_body)
+
+CHECKS.append(Check("many_inputs", lambda tier: [dict(k=205, mergebuf=1000)] if tier == "quick" else [dict(k=205, mergebuf=1000), dict(k=260, mergebuf=50), dict(k=1030, mergebuf=100000)],
+                    many_sym, many_real,
+                    doc="scale case: 205 (thorough: up to 1030) input coolers merged with agg=mean on an extra column whose value in the first and the "
+                        "last input is symbolic: the stored value is the mean over all inputs (a batch-wise merge cannot produce it)",
+                    bounds=dict(quick="205 inputs of 1-2 pixels over 2 bins", thorough="up to 1030 inputs"),
+                    stubs=("E3", "E4 groupby-aggregate mean over exact reals"), outside=("other input counts; supports beyond two pixels",), timeout=2400))
